@@ -13,6 +13,7 @@ FUNCTIONS = ["MFASystem._get_mass_balance", "MFASystem.check_mass_balance", "MFA
 ASSUMPTIONS = ["explicit tolerance >= 0", "NaN modelled by an explicit flag per flow entry in the nan harnesses (IEEE comparison semantics; numpy max/abs propagate NaN)",
                "float64 machine epsilon 2^-52 for the default tolerance"]
 OUTSIDE = ["integer-dtype flows", "float rounding inside the balance", "systems without any flow", "graphs beyond the bound"]
+VARIANTS = 'two stocks at one process; check-change-check histories; NaN flags per flow entry (nan harnesses)'
 BOUNDS = {
     "quick": dict(processes="sysenv + 2", flows="every multiset of 1..2 flows and every third multiset of 3 flows over the 6 ordered process pairs (parallel and opposing included)",
                   flow_dims="3 rotating assignments of dimension subsets/orders from {t,a,b}", stocks="none / at p1 / at sysenv / without process / two (one without process) / two at the same process",
@@ -20,6 +21,8 @@ BOUNDS = {
     "thorough": dict(processes="sysenv + 3", flows="multisets over 12 ordered pairs: all of size <= 2, every 9th of size 3, every 60th of size 4", flow_dims="3 assignments", stocks="as quick + stock at p2",
                      modes="two of the four per (graph, stocks), rotating", lengths="t2 a2 b2"),
 }
+for _t in BOUNDS.values():
+    _t["variants_beyond_the_base_enumeration"] = VARIANTS
 OPTS = {"quick": dict(shadow_every=40, max_paths=600, timeout_ms=40000), "thorough": dict(shadow_every=300, max_paths=600, timeout_ms=30000)}
 LENS = dict(t=2, a=2, b=2)
 DIMSETS = ["ta", "at", "t", "tab", "b", "", "bta", "a", "tb"]
